@@ -54,7 +54,11 @@ Record cfg : Type := mkCfg {
   c_init : option N;
   c_cap_stack : option nat;
   c_cap_expr : option nat;
-  c_cap_res : option nat
+  c_cap_res : option nat;
+  (* None: the faithful model of gimli.  Some bits: the NORMALISED machine — identical, except that every
+     generic value is reduced modulo 2^bits when it is pushed, so the stack only ever holds canonical values
+     (the DWARF stack machine over Z/2^bits; used as the specification oracle of stream c07.spec). *)
+  c_canon : option N
 }.
 
 Record st : Type := mkSt {
@@ -90,9 +94,16 @@ Definition new_mask (dbg : bool) (asz : N) : res N :=
 Definition full {A} (cap : option nat) (l : list A) : bool :=
   match cap with None => false | Some c => Nat.leb c (length l) end.
 
+(* normalisation of a value entering the stack (identity in the faithful model) *)
+Definition norm (c : cfg) (v : value) : value :=
+  match c_canon c, vty v with
+  | Some bits, TGeneric => mkV TGeneric (N.land (vbits v) (N.ones bits))
+  | _, _ => v
+  end.
+
 (* Evaluation::push / pop *)
 Definition push (c : cfg) (s : st) (v : value) : res st :=
-  if full (c_cap_stack c) (s_stack s) then Err EStackFull else Ok (set_stack s (v :: s_stack s)).
+  if full (c_cap_stack c) (s_stack s) then Err EStackFull else Ok (set_stack s (norm c v :: s_stack s)).
 Definition pop (s : st) : res (value * st) :=
   match s_stack s with
   | [] => Err ENotEnoughStackItems
